@@ -33,9 +33,9 @@ var readOnly = map[string]string{
 	"ResponseHeader": "AppendBytes ConnectionClose ContentEncoding ContentLength ContentLengthBytes ContentType Cookie CopyTo FullCookie Get GetAll " +
 		"GetCookies GetHeaderLength GetHeaders GetProtocol Header IsDisableNormalizing IsHTTP11 Len MustSkipContentLength NoDefaultContentType " +
 		"Peek PeekAll PeekArgBytes PeekLocation Server StatusCode Trailer VisitAll VisitAllCookie",
-	"URI": "AppendBytes FullURI Hash Host LastPathSegment Password Path PathOriginal QueryString RequestURI Scheme String Username",
-	"Args": "AppendBytes Has Len Peek PeekAll PeekExists QueryString String VisitAll WriteTo",
-	"Cookie": "AppendBytes Cookie Domain Expire HTTPOnly Key MaxAge Partitioned Path SameSite Secure String Value",
+	"URI":     "AppendBytes FullURI Hash Host LastPathSegment Password Path PathOriginal QueryString RequestURI Scheme String Username",
+	"Args":    "AppendBytes Has Len Peek PeekAll PeekExists QueryString String VisitAll WriteTo",
+	"Cookie":  "AppendBytes Cookie Domain Expire HTTPOnly Key MaxAge Partitioned Path SameSite Secure String Value",
 	"Trailer": "AppendBytes Empty Get GetBytes GetTrailers Header IsDisableNormalizing Peek VisitAll",
 }
 
